@@ -4,13 +4,14 @@ spec:   spec/Sector.tla (actions AddVariable, SetRHS, Exclude, AddCashFlow; inva
         C06_INC, C06_DefineOnce stated over the history `log`)
 TLC:    exhaustive check of the bounded instances; every maximal behaviour is emitted as the list
         of its action keys, the alphabet (key -> action record) once
-          quick     MC_Sector_quick.cfg      27 actions, histories of length 3
+          quick     MC_Sector_quick.cfg      26 actions, histories of length 3
           thorough  the quick instance, and
-                    MC_Sector_thorough.cfg   58 actions, length 3
+                    MC_Sector_thorough.cfg   60 actions, length 3
                     MC_Sector_thorough2.cfg  20 actions, length 4
                     MC_Sector_thorough3.cfg  all 266 actions of the instance, length 2
         flow terms: names A, B, products A*B, B*A, quotients A/B, B/A (A/B and B/A are different flows),
-        a name with a numeric factor 2*A, A*2, A/2, 2/A; each under the sign / bracket spellings
+        a name with a numeric factor 2*A, A*2, A/2, 2/A, decorated names of another sector's variable
+        OTHER__A, _7__A (not the local A: exclusions match the whole name); each under the sign / bracket spellings
 replay: each behaviour is executed on a fresh real Sector 'S' inside a fresh real Model / Country C1;
         two more sectors only receive the exclusions that must not concern S: the twin 'T' = a
         Sector with the SAME Code 'S' in a second Country C2 of the same Model (exclusions are per
@@ -45,7 +46,8 @@ import re
 from harness import core
 
 # = Vals of Sector.tla.  Ledger values are rational (quotient flows): they are logged K-fold, as exact integers.
-ENVS = [dict(A=12, B=-5, LAG_F=1009, Z=3, W=8), dict(A=-15, B=4, LAG_F=-1013, Z=-4, W=-6)]
+ENVS = [dict(A=12, B=-5, LAG_F=1009, OTHER__A=37, _7__A=-23, Z=3, W=8),
+        dict(A=-15, B=4, LAG_F=-1013, OTHER__A=-41, _7__A=29, Z=-4, W=-6)]
 SCALE = 60
 DEF_SCALE = 4        # definition texts (coefficients 0.5, 0.25) are logged 4-fold = DenDef of Sector.tla
 FLOW_NAMES = ('A', 'B')
@@ -104,20 +106,21 @@ def evaluate(text, scale=1):
 
 def check_separation(norm=8):
     """Reproduces the separation claim of Sector.tla (not run by the check): enumerates every difference d of
-    ledger coefficient vectors over the ten bodies and LAG_F with sum |d_i| <= norm and returns those that
+    ledger coefficient vectors over the twelve bodies and LAG_F with sum |d_i| <= norm and returns those that
     vanish under both valuations without being the zero flow value identically (expected: [])."""
     Fr = fractions.Fraction
     cols = []
     for env in ENVS:
         A, B, L = Fr(env['A']), Fr(env['B']), Fr(env['LAG_F'])
-        cols.append([int(x * SCALE) for x in (A, B, A * B, B * A, A / B, B / A, 2 * A, A * 2, A / 2, 2 / A, L)])
-    n, d, bad = len(cols[0]), [0] * 11, []
+        cols.append([int(x * SCALE) for x in (A, B, A * B, B * A, A / B, B / A, 2 * A, A * 2, A / 2, 2 / A, L,
+                                              Fr(env['OTHER__A']), Fr(env['_7__A']))])
+    n, d, bad = len(cols[0]), [0] * 13, []
 
     def rec(i, left, s0, s1):
         if i == n:
-            dA, dB, dAB, dBA, dAoB, dBoA, d2A, dA2, dAh, d2oA, dL = d
+            dA, dB, dAB, dBA, dAoB, dBoA, d2A, dA2, dAh, d2oA, dL, dP, dQ = d
             same = (2 * dA + 4 * d2A + 4 * dA2 + dAh == 0 and dAB + dBA == 0
-                    and not (dB or dAoB or dBoA or d2oA or dL))
+                    and not (dB or dAoB or dBoA or d2oA or dL or dP or dQ))
             if s0 == 0 and s1 == 0 and not same:
                 bad.append(list(d))
             return
@@ -204,7 +207,8 @@ def execute(beh, verbose=False):
 def spelling(a):
     """sign / bracket form of a flow term with the body reduced to n(ame) / p(roduct) / q(uotient) / numeric factor 2*n, n*2, n/2, 2/n"""
     body = a['body']
-    kind = ('n' if body in FLOW_NAMES else body.replace('A', 'n') if '2' in body      # 2*n, n*2, n/2, 2/n
+    kind = ('n' if body in FLOW_NAMES else 'decorated' if '__' in body
+            else body.replace('A', 'n') if '2' in body      # 2*n, n*2, n/2, 2/n
             else 'q' if '/' in body else 'p')
     return a['s1'] + ('(' + a['s2'] + kind + ')' if a['br'] else kind)
 
@@ -229,8 +233,13 @@ def signature(clause, beh, events, at):
             return 'f:term=%s:repeat=%d:other-order-before=%d' % (spelling(a), rep, swp)
         ex = {w: int(any(b['op'] == 'EX' and b['who'] == w and b['body'] == a['body'] for b in before))
               for w in ('S', 'T', 'O')}
-        return 'inc:term=%s:income=%d:excludedS=%d:excludedTwin=%d:excludedO=%d:repeat=%d:other-order-before=%d' % (
+        sig = 'inc:term=%s:income=%d:excludedS=%d:excludedTwin=%d:excludedO=%d:repeat=%d:other-order-before=%d' % (
             spelling(a), int(a['inc']), ex['S'], ex['T'], ex['O'], rep, swp)
+        if '__' in a['body']:       # another sector's variable: is its local part excluded for S?
+            local = a['body'].split('__')[-1]
+            sig += ':local-part-excludedS=%d' % int(any(
+                b['op'] == 'EX' and b['who'] == 'S' and b['body'] == local for b in before))
+        return sig
     if clause == 'C06_DefineOnce':
         prev = events[at - 2]['defs'] if at >= 2 else {n: {'k': 'absent'} for n in FLOW_NAMES}
         own = prev.get(a['body'], {'k': 'n/a'})['k']
@@ -342,7 +351,7 @@ def run(rep):
                 'Model/Country/Sector; distinct = distinct call sequences; non-trivial = at least one AddCashFlow')
     rep.exhaustive = True
     rep.assumptions = ['ledger values are computed in exact rational arithmetic and compared (60-fold, as integers) on two '
-                       'fixed valuations; they tell apart any two ledgers whose coefficient vectors differ by at most 10 '
+                       'fixed valuations; they tell apart any two ledgers whose coefficient vectors differ by at most 8 '
                        'in sum of absolute values and that are not the same flow value identically (enumerated: '
                        'check_separation); definition values 4-fold on two integer valuations',
                        '"not excluded" is read as not excluded at the time of registration (weaker reading)',
